@@ -225,6 +225,7 @@ type c18ListObs struct {
 	final     bool
 	inHandler bool
 	pages     int
+	seqDone   int64 // logical clock at the result
 }
 
 type c18ReadObs struct {
@@ -626,7 +627,7 @@ func runC18(c *vh.Case, spec c18Spec) *c18World {
 			obs.err = err.Error()
 		}
 		obs.names = c18Join(names)
-		log.Add("list-result", "sess", si, "kind", lk, "names", obs.names, "err", obs.err)
+		obs.seqDone = log.Add("list-result", "sess", si, "kind", lk, "names", obs.names, "err", obs.err).Seq
 		w.mu.Lock()
 		w.lists = append(w.lists, obs)
 		w.mu.Unlock()
@@ -1134,9 +1135,18 @@ func decideC18(c *vh.Case, spec c18Spec, w *c18World) {
 				idx = i
 			}
 		}
-		if idx < 0 && l.pages > 1 {
-			// A traversal of several pages may legitimately mix states (changes between pages, pages cached
-			// at different times). Only when nothing can be stale is a mixture wrong: a final traversal
+		// A traversal of several pages that overlaps a change of that list may legitimately mix states (its union
+		// may even coincide with an older state), and pages may have been cached at different times.
+		overlapsChange := false
+		if l.pages > 1 {
+			for _, ch := range w.changes {
+				if ch.listKind == l.listKind && ch.seqStart < l.seqDone && ch.seqDone > l.seqIssue {
+					overlapsChange = true
+				}
+			}
+		}
+		if l.pages > 1 && (idx < 0 || overlapsChange) {
+			// Only when nothing can be stale is a mixture wrong: a final traversal
 			// (no change in progress) by a session that had handled the notification covering the last state.
 			rt := w.sess[l.sess]
 			m := c18Method(c18NotifKind(l.listKind))
@@ -1149,7 +1159,7 @@ func decideC18(c *vh.Case, spec c18Spec, w *c18World) {
 					need = ci
 				}
 			}
-			if l.final && need == len(w.sets[l.listKind])-1 {
+			if idx < 0 && l.final && need == len(w.sets[l.listKind])-1 {
 				c.Violate("stale-page-after-notification/"+l.listKind, "session %d (%s, ttl %d ms, page size %d): the final %s traversal (%d pages) returned {%s} although the client had handled the notification sent after the last state {%s} was in place: some page is stale", l.sess, spec.Sessions[l.sess].Version, spec.TTLms, spec.PageSize, l.listKind, l.pages, l.names, w.sets[l.listKind][need])
 				return
 			}
